@@ -156,6 +156,17 @@ func (vc *VC) resolveTarget(e *Expr, env *SpecEnv) (target, bool) {
 			return target{heap: l.Heap, key: l.Ref, field: -1, cell: derefType(p.typ)}, true
 		}
 	case "call":
+		if fn, ok := dottedName(e.Args[0]); ok && fn == "pointee" {
+			x := vc.evalSpec(e.Args[1], env)
+			if x.dyn != nil && x.dyn.typ != nil {
+				l := vc.locOf(*x.dyn)
+				if l.Idx == "" && len(l.Path) == 0 {
+					return target{heap: l.Heap, key: l.Ref, field: -1, cell: derefType(x.dyn.typ)}, true
+				}
+			}
+			vc.errorf("modifies: pointee() of an unknown or interior pointer")
+			return target{}, false
+		}
 		if fn, ok := dottedName(e.Args[0]); ok && fn == "elems" {
 			s := vc.evalSpec(e.Args[1], env)
 			if s.typ != nil {
